@@ -22,6 +22,10 @@ LEAVES = {
     "S": {"n": 3, "traits": {"PartialEq", "Eq", "PartialOrd", "Ord", "Hash", "Clone", "Debug", "Default"}},
     # instrumented Clone: `clone` and `clone_from` are observably different and counted
     "K": {"n": 6, "traits": {"PartialEq", "Clone", "Debug"}},
+    "KC": {"n": 6, "traits": {"PartialEq", "Clone", "Copy", "Debug"}, "clone_table": True},
+    # a user's type called `PhantomData` (alias PD; written `tagged::PhantomData<L>` where the derive reads it)
+    "PD": {"n": 3, "traits": {"PartialEq", "Eq", "PartialOrd", "Ord", "Hash", "Clone", "Copy", "Debug", "Default"}, "clone_table": True,
+           "ty_src": "tagged::PhantomData<L>"},
     # payload types with niches / zero size (C04); no methods are defined for them
     "bool": {"n": 2, "traits": {"PartialEq", "Eq", "PartialOrd", "Ord", "Hash", "Clone", "Copy", "Debug", "Default"}},
     "char": {"n": 3, "traits": {"PartialEq", "Eq", "PartialOrd", "Ord", "Hash", "Clone", "Copy", "Debug", "Default"}},
@@ -109,6 +113,21 @@ pub mod prelude {
     impl Clone for K {
         fn clone(&self) -> K { bump(); K(self.0, 0) }
         fn clone_from(&mut self, s: &K) { bump(); let t = if self.0 == s.0 { 1 } else { 2 }; self.0 = s.0; self.1 = t; }
+    }
+    /// a user's own type that is called like a well-known one and carries data: the derive sees `tagged::PhantomData<L>`
+    pub mod tagged {
+        #[derive(Clone, Copy, Debug, PartialEq, Eq, PartialOrd, Ord, Hash, Default)]
+        pub struct PhantomData<T>(pub T);
+    }
+    pub type PD = tagged::PhantomData<L>;
+    impl Leaf for PD { const N: usize = 3; fn d(i: usize) -> PD { tagged::PhantomData(L(i as u8)) } fn id(&self) -> usize { (self.0).0 as usize } }
+    /// like K, and `Copy`: a type whose own `Clone::clone` is observably not a bitwise copy (legal, if frowned upon)
+    #[derive(Debug, PartialEq, Copy)]
+    pub struct KC(pub u8, pub u8);
+    impl Leaf for KC { const N: usize = 6; fn d(i: usize) -> KC { KC((i / 3) as u8, (i % 3) as u8) } fn id(&self) -> usize { (self.0 * 3 + self.1) as usize } }
+    impl Clone for KC {
+        fn clone(&self) -> KC { bump(); KC(self.0, 0) }
+        fn clone_from(&mut self, s: &KC) { bump(); let t = if self.0 == s.0 { 1 } else { 2 }; self.0 = s.0; self.1 = t; }
     }
     pub fn eq_m_K(a: &K, b: &K) -> bool { a.0 == b.0 }
     pub fn cmp_m_K(a: &K, b: &K) -> Ordering { a.0.cmp(&b.0) }
@@ -211,6 +230,13 @@ def leaf_table_code():
                 out.append(f'''
     for i in 0..{n} {{ let a = <{ty} as Leaf>::d(i);
         println!("[\\"hashv\\",\\"{ty}\\",{{}},{{}}]", i, js(&rec(&a))); }}''')
+            if info.get("clone_table"):
+                out.append(f'''
+    for i in 0..{n} {{ let a = <{ty} as Leaf>::d(i);
+        println!("[\\"clonev\\",\\"{ty}\\",{{}},{{}}]", i, Clone::clone(&a).id());
+        for j in 0..{n} {{ let mut x = <{ty} as Leaf>::d(i); let y = <{ty} as Leaf>::d(j); Clone::clone_from(&mut x, &y);
+            println!("[\\"clonef\\",\\"{ty}\\",{{}},{{}},{{}}]", i, j, x.id()); }}
+    }}''')
             continue
         out.append(f'''
     for i in 0..{n} {{ for j in 0..{n} {{ let a = {ty}::d(i); let b = {ty}::d(j);
@@ -627,6 +653,8 @@ def finalize_attrs(rng, td, noise=()):
                     srng.choice(others).name = p
     for v in td.variants:
         for f in v.fields:
+            if not hasattr(f, "ty_src") and LEAVES.get(f.ty, {}).get("ty_src"):
+                f.ty_src = srng.choice([LEAVES[f.ty]["ty_src"], "super::prelude::" + LEAVES[f.ty]["ty_src"]]) if getattr(td, "type_spelling", False) else LEAVES[f.ty]["ty_src"]
             # the same type written differently (parenthesised, by path): irrelevant to what the impls do
             if getattr(td, "type_spelling", False) and not hasattr(f, "ty_src") and re.match(r"^[A-Za-z0-9]+$", f.ty) and srng.random() < 0.12:
                 prim = f.ty in ("bool", "char", "u8", "u16", "u32", "u64", "i8", "i16", "i32", "i64", "usize", "isize", "f32", "f64")
